@@ -251,6 +251,22 @@ func (e *Editor) Apply() bool {
 		}
 		e.stageSeq++
 		tmp := e.Stage + "/r" + itoa(e.stageSeq)
+		if len(x.node.Content) > 0 && r.Chance(3, 5) {
+			// Different content of the SAME size under the SAME modification time, but a new
+			// inode (written aside while the old file still exists, renamed into place, time put
+			// back): only the file's identity tells the change. The hypothesis holds (identity
+			// changed), so the accelerated scan must re-hash.
+			var st syscall.Stat_t
+			must(syscall.Lstat(x.disk, &st))
+			x.node.Content = flip(x.node.Content, r)
+			must(os.WriteFile(tmp, x.node.Content, 0o600))
+			must(os.Chmod(tmp, os.FileMode(x.node.Perm&0o777)|specialBits(x.node.Perm)))
+			must(os.Rename(tmp, x.disk))
+			must(syscall.UtimesNano(x.disk, []syscall.Timespec{st.Mtim, st.Mtim}))
+			e.report(x.path)
+			label("replace-inode:new-content-same-size-mtime")
+			return true
+		}
 		must(os.WriteFile(tmp, x.node.Content, 0o600))
 		must(os.Chmod(tmp, os.FileMode(x.node.Perm&0o777)|specialBits(x.node.Perm)))
 		must(os.Rename(tmp, x.disk))
